@@ -480,10 +480,26 @@ def is_box(v):
 def clear_kind(v, c):
     """is companion `c` of a kind whose treatment the property text fixes without interpretation?  'scalar' (holds no
     container at all), 'same' (same shape as v: every container of v is matched by a sequence of the same length / a dict of
-    the same keys; may stop early with a scalar), else None"""
+    the same keys; may stop early with a scalar), 'flat-other' (v is one flat container and c is a flat container that does NOT
+    match it - other length, other key set, list against dict: "everything else is broadcast", so every leaf gets c whole),
+    else None"""
     if not is_box(c):
         return 'scalar'
-    return 'same' if _matches(v, c) else None
+    if _matches(v, c):
+        return 'same'
+    if is_box(v) and _flat(v) and _flat(c) and not _level_match(v, c):
+        return 'flat-other'
+    return None
+
+
+def _flat(x):
+    return not any(is_box(m) for m in (x.values() if isinstance(x, dict) else x))
+
+
+def _level_match(v, c):
+    if isinstance(v, dict):
+        return isinstance(c, dict) and sorted(c) == sorted(v)
+    return isinstance(c, (list, tuple)) and len(c) == len(v)
 
 
 def _matches(v, c):
@@ -499,7 +515,9 @@ def _matches(v, c):
 def ref_lift(fn, v, pos, kw):
     """the property statement for scalar / same-shape companions: same containers, leaves = fn(leaf, matched companions)"""
     def pick(c, step):
-        return c[step] if is_box(c) else c
+        if not is_box(c) or not _level_match(v, c):
+            return c                          # a scalar, or a container that does not match this level: broadcast whole
+        return c[step]
     if isinstance(v, dict):
         return {k: ref_lift(fn, v[k], [pick(c, k) for c in pos], {n: pick(c, k) for n, c in kw.items()}) for k in v}
     if isinstance(v, (list, tuple)):
